@@ -404,6 +404,29 @@ pub fn run(tier: &str, seed: u64, report: &mut Report) {
             report.oracle_fail("backup-not-clean", json!({"case_seed": case_seed}), "backup failed", json!(trunc(&b0.result)));
             continue;
         }
+        // an archive written by conserve on macOS / BSD records the symlink's OWN permission bits (0755 under
+        // umask 022), where Linux always records 0777: rewrite the stored entries that way in some of the
+        // one-version cases — restoring such an archive must still leave the links' targets alone
+        if scenario == 0 && (i == 2 || rng.chance(1, 3)) {
+            let mut n = 0;
+            for sub in fs::read_dir(arch.join("b0000/i")).into_iter().flatten().flatten() {
+                for h in fs::read_dir(sub.path()).into_iter().flatten().flatten() {
+                    let Ok(bytes) = fs::read(h.path()) else { continue };
+                    let Ok(raw) = snap::raw::Decoder::new().decompress_vec(&bytes) else { continue };
+                    let Ok(mut v) = serde_json::from_slice::<serde_json::Value>(&raw) else { continue };
+                    if let Some(arr) = v.as_array_mut() {
+                        for e in arr.iter_mut().filter(|e| e["kind"] == "Symlink") {
+                            e["unix_mode"] = json!(0o755);
+                            n += 1;
+                        }
+                    }
+                    fs::write(h.path(), snap::raw::Encoder::new().compress_vec(&serde_json::to_vec(&v).unwrap()).unwrap()).unwrap();
+                }
+            }
+            if n > 0 {
+                report.hit("scenario0:symlink-modes-as-recorded-on-macos(0755)");
+            }
+        }
         let mut interrupted_band: Option<u32> = None;
         let mut swapped: Option<String> = None;
         if scenario >= 1 {
